@@ -29,7 +29,7 @@ def jsonable(x: Any) -> Any:
     """Best-effort conversion of a case to something json.dump accepts (bytes -> {'hex':..})."""
     if isinstance(x, (str, int, float, bool)) or x is None:
         if isinstance(x, int) and not isinstance(x, bool) and abs(x) >= 2**63:
-            return {'int': str(x)}
+            return {'__bigint__': str(x)}
         return x
     if isinstance(x, bytes):
         return {'hex': x.hex()}
@@ -47,8 +47,8 @@ def unjson(x: Any) -> Any:
     if isinstance(x, dict):
         if set(x) == {'hex'}:
             return bytes.fromhex(x['hex'])
-        if set(x) == {'int'}:
-            return int(x['int'])
+        if set(x) == {'__bigint__'}:
+            return int(x['__bigint__'])
         return {k: unjson(v) for k, v in x.items()}
     if isinstance(x, list):
         return [unjson(i) for i in x]
